@@ -176,6 +176,10 @@ def gen_profile(rng, eng, P):
             v = vcr * rng.uniform(0.6, 0.95)
         if rng.random() < 0.05:
             cruise = not cruise
+        if rng.random() < 0.12:
+            # acceleration independent of the sign of the climb rate: a level or climbing point that decelerates harder than
+            # drag / mass (negative total-energy thrust without descending), an accelerating descent
+            acc = rng.choice([-1.0, -0.7, -1.5, 0.6, 0.9]) if ph != 'de' else rng.choice([0.5, 0.9, -1.2])
         T = isa_T(alt) + rng.choice([0.0, 0.0, rng.uniform(-15.0, 25.0)])
         gs = v + rng.uniform(-0.2, 0.2) * v
         pts.append({'T': T, 'alt': alt, 'v': v, 'rocd': rocd, 'acc': acc, 'cruise': cruise, 'gs': gs})
